@@ -253,6 +253,8 @@ class Conv:
                 for L in lim(self.r2):
                     b.append((int(Fr(L * self.d, self.n)) - self.kd) // self.kx)
         self.iv = merge(iv + windows(b, small, lo, hi))
+        if not isf(self.r1) and core.BITS[self.r1] <= 16:
+            self.iv = [(lo, hi)]          # 8/16-bit source reps: every value
 
     def weight(self):
         return sum(b - a + 1 for a, b in self.iv) * (2 if isf(self.r1) else 1)
@@ -425,6 +427,10 @@ SHIFT_REPS_QUICK = [("int32_t", "int32_t"), ("int32_t", "int64_t"), ("int64_t", 
 REPS_QUICK = [(r, r) for r in REPS] + [("int32_t", "int64_t"), ("int64_t", "int32_t"), ("uint32_t", "int32_t"),
                                        ("int32_t", "uint32_t"), ("int32_t", "double"), ("double", "int32_t"),
                                        ("float", "double"), ("int64_t", "float")]
+# narrow reps, conversions only (added after seeded change C09: the intermediate-rep rule matters for unsigned reps
+# narrower than int, where std::common_type_t<T,T> does not promote)
+REPS_NARROW_CONV = [("uint16_t", "uint16_t"), ("uint8_t", "uint8_t"), ("int16_t", "int16_t"), ("uint16_t", "int32_t"),
+                    ("int16_t", "uint16_t"), ("uint8_t", "uint16_t")]
 
 
 def build_instances(tier, units, qunits, ro):
@@ -439,7 +445,7 @@ def build_instances(tier, units, qunits, ro):
         for b in units:
             if a is b or (a.name, b.name) not in ro["disp"]:
                 continue
-            for r1, r2 in rps(a, b):
+            for r1, r2 in rps(a, b) + REPS_NARROW_CONV:
                 if True:
                     out.append(Conv(len(out), a, r1, b, r2, ro["disp"][(a.name, b.name)]))
     for i, a in enumerate(units):
